@@ -276,6 +276,9 @@ func (df *DataFile) ReadRecordValue(logRecordPos *DataPos) ([]byte, error) {
 	if err != nil {
 		return nil, err
 	}
+	if !validLogRecord(buf.B) {
+		return nil, ErrInvalidCRC
+	}
 	value := DecodeLogRecordValue(buf.B)
 	return value, nil
 }
@@ -325,6 +328,9 @@ func (df *DataFile) readToBuf(blockID uint32, offset uint32, buf *bytebufferpool
 		if err != nil {
 			return err
 		}
+		if !validChunkOrder(chunkType, buf.Len() == 0) {
+			return ErrInvalidCRC
+		}
 		buf.B = append(buf.B, data...)
 		// last chunk
 		if chunkType == Full || chunkType == Last {
@@ -362,6 +368,9 @@ func (reader *DataReader) NextLogRecord() (*LogRecord, *DataPos, error) {
 	if err != nil {
 		return nil, nil, err
 	}
+	if !validLogRecord(data) {
+		return nil, nil, ErrInvalidCRC
+	}
 	return DecodeLogRecord(data), pos, nil
 }
 
@@ -373,6 +382,9 @@ func (reader *DataReader) NextHintRecord() ([]byte, *DataPos, error) {
 	data, _, err := reader.next()
 	if err != nil {
 		return nil, nil, err
+	}
+	if !validHintRecord(data) {
+		return nil, nil, ErrInvalidCRC
 	}
 
 	hintRecord, pos := DecodeHintRecord(data)
@@ -444,6 +456,12 @@ func (reader *DataReader) next() ([]byte, *DataPos, error) {
 				return incomplete()
 			}
 			return nil, nil, err
+		}
+		if !validChunkOrder(chunkType, cnt == 0) {
+			if reader.dataFile.preallocated {
+				return incomplete()
+			}
+			return nil, nil, ErrInvalidCRC
 		}
 		res = append(res, data...)
 		cnt++
